@@ -529,7 +529,7 @@ _DRY_CACHE = {}
 
 def shards(tier):
     schemes = ["CJJ14.PiBas"] if tier == "quick" else ["CJJ14.PiBas", "CJJ14.Pi2Lev", "DP17.Pi"]
-    dbs = [0] if tier == "quick" else [0, 1, 2]
+    dbs = [0] if tier == "quick" else [0, 1]
     out = []
     for s in schemes:
         for dbi in dbs:
